@@ -47,6 +47,25 @@ Hash(p, k) == SumSeq([i \in 1..Len(p) |-> (2 * i + 1) * PKey(p[i])]) + 5 * k + L
 Reverse(s) == [i \in 1..Len(s) |-> s[Len(s) + 1 - i]]
 Rhs(n) == [j \in 1..n |-> <<((2 * j) % 3) - 1, (j % 2) + 1>>]
 
+\* Builder histories: sequences of KernelParams setter calls (starting from Kernel::params(): dense, Gaussian(0.5),
+\* KdTree) that all end in the configuration of the case (method, kind k, neighbour index hnn): every order of the three
+\* setters, behind an optional decoy call whose value is overwritten later, and the minimal history that only calls
+\* the setters whose value differs from the default.
+DefMeth == [name |-> "gauss", en |-> 1, ed |-> 2, c |-> 0, d |-> 0, dd |-> 1]
+OpM(m)  == [f |-> "meth", m |-> m, k |-> 0, nn |-> ""]
+OpK(k)  == [f |-> "kind", m |-> DefMeth, k |-> k, nn |-> ""]
+OpN(nn) == [f |-> "nn", m |-> DefMeth, k |-> 0, nn |-> nn]
+Hists(m, k, nn, h) ==
+  LET M == OpM(m)  K == OpK(k)  N == OpN(nn)
+      decoy == CASE h % 4 = 1 -> <<OpM(IF m.name = "linear" THEN Methods[3] ELSE Methods[1])>>
+                 [] h % 4 = 2 -> <<OpK(IF k = 0 THEN 1 ELSE 0)>>
+                 [] h % 4 = 3 -> <<OpN(IF nn = "lin" THEN "ball" ELSE "lin")>>
+                 [] OTHER -> <<>>
+      minimal == (IF m = DefMeth THEN <<>> ELSE <<M>>) \o (IF nn = "kd" THEN <<>> ELSE <<N>>) \o (IF k = 0 THEN <<>> ELSE <<K>>)
+  IN << decoy \o <<M, K, N>>, decoy \o <<M, N, K>>, decoy \o <<K, M, N>>,
+        decoy \o <<K, N, M>>, decoy \o <<N, M, K>>, decoy \o <<N, K, M>>, minimal >>
+NNs == <<"kd", "lin", "ball", "kd">>
+
 Spaces == { [pts |-> Tuples({0, 1, 2}, 2), maxn |-> MaxN2, big |-> TRUE, neg |-> FALSE],
             [pts |-> Tuples({-2, -1, 0, 1, 2}, 1), maxn |-> MaxN1, big |-> FALSE, neg |-> TRUE],
             [pts |-> Tuples({0, 1}, 3), maxn |-> MaxN3, big |-> FALSE, neg |-> FALSE] }
@@ -64,7 +83,9 @@ Init ==
                          pd |-> IF (Hash(s, k) \div 72) % 3 = 0 THEN 2 ELSE 1,
                          \* Gaussian kernels are shift-invariant: three quarters of them get their records shifted by a
                          \* large exactly representable offset (code 1..3, see the harness); the relation is unchanged
-                         off |-> IF Methods[mi].name = "gauss" THEN (Hash(s, k) \div 11) % 4 ELSE 0]]
+                         off |-> IF Methods[mi].name = "gauss" THEN (Hash(s, k) \div 11) % 4 ELSE 0,
+                         hnn |-> NNs[((Hash(s, k) \div 7) % 4) + 1],
+                         hists |-> Hists(MethFor(mi, sp.neg), k, NNs[((Hash(s, k) \div 7) % 4) + 1], Hash(s, k) \div 13)]]
 
 Next == UNCHANGED case
 Emit == PrintT("CASE " \o ToJson(case))
